@@ -1,0 +1,94 @@
+// Copyright contributors to the openqasm-parser project
+// SPDX-License-Identifier: Apache-2.0
+
+//! Verification seam (cargo feature `oq3_verif` only, off by default).
+//!
+//! Lets a deterministic simulator stand in for the file system and the process environment
+//! on the current thread. The four operations below are the only ones this crate performs on
+//! its environment. When no simulator is installed every function falls through to `std`,
+//! so enabling the feature alone changes no behaviour.
+
+use std::cell::RefCell;
+use std::ffi::OsString;
+use std::io;
+use std::path::{Path, PathBuf};
+use std::rc::Rc;
+
+/// The environment operations `oq3_source_file` performs.
+pub trait SimEnv {
+    fn is_file(&self, path: &Path) -> bool;
+    fn read_to_string(&self, path: &Path) -> io::Result<String>;
+    fn canonicalize(&self, path: &Path) -> io::Result<PathBuf>;
+    fn var_os(&self, key: &str) -> Option<OsString>;
+}
+
+thread_local! {
+    static SIM: RefCell<Option<Rc<dyn SimEnv>>> = const { RefCell::new(None) };
+}
+
+/// Uninstalls the simulator of the current thread when dropped.
+pub struct SimGuard(());
+
+impl Drop for SimGuard {
+    fn drop(&mut self) {
+        SIM.with(|s| *s.borrow_mut() = None);
+    }
+}
+
+/// Install `sim` for the current thread until the returned guard is dropped.
+pub fn install(sim: Rc<dyn SimEnv>) -> SimGuard {
+    SIM.with(|s| *s.borrow_mut() = Some(sim));
+    SimGuard(())
+}
+
+fn current() -> Option<Rc<dyn SimEnv>> {
+    SIM.with(|s| s.borrow().clone())
+}
+
+/// Brought into scope in `source_file.rs`. Method resolution finds `is_file` of this trait
+/// at the `&PathBuf` step, before auto-deref reaches the inherent `Path::is_file`, so the
+/// existing call `full_path.is_file()` goes through the seam without being edited.
+pub(crate) trait PathBufIsFile {
+    fn is_file(&self) -> bool;
+}
+
+impl PathBufIsFile for PathBuf {
+    fn is_file(&self) -> bool {
+        match current() {
+            Some(sim) => sim.is_file(self.as_path()),
+            None => self.as_path().is_file(),
+        }
+    }
+}
+
+/// Same function names as `std::fs`.
+pub(crate) mod fs {
+    use super::*;
+
+    pub(crate) fn read_to_string<P: AsRef<Path>>(path: P) -> io::Result<String> {
+        match current() {
+            Some(sim) => sim.read_to_string(path.as_ref()),
+            None => std::fs::read_to_string(path),
+        }
+    }
+
+    pub(crate) fn canonicalize<P: AsRef<Path>>(path: P) -> io::Result<PathBuf> {
+        match current() {
+            Some(sim) => sim.canonicalize(path.as_ref()),
+            None => std::fs::canonicalize(path),
+        }
+    }
+}
+
+/// Same function names as `std::env`.
+pub(crate) mod env {
+    use super::*;
+    pub(crate) use std::env::split_paths;
+
+    pub(crate) fn var_os(key: &str) -> Option<OsString> {
+        match current() {
+            Some(sim) => sim.var_os(key),
+            None => std::env::var_os(key),
+        }
+    }
+}
